@@ -284,11 +284,21 @@ where
     DefaultAllocator: Allocator<N, D> + Allocator<N, U1, D> + Allocator<N, D, D> + Allocator<(usize, usize), D> + Allocator<N, D, Const<6>> + Allocator<N, D, Const<4>>,
 {
     // the dimension value the closure needs to build its return vector
-    let dd: D = match dynamic {
+    let dd: D = match match dynamic {
         Some(n) => D::dim_dyn(n).or_else(|_| D::dim()),
         None => D::dim().or_else(|_| D::dim_dyn(y0.len())),
-    }
-    .expect("one of dim()/dim_dyn() works for every Dimension");
+    } {
+        Ok(d) => d,
+        // neither way of obtaining the dimension works (e.g. a dynamic dimension that rejects a legal size): that is
+        // the library refusing a valid configuration, reported as a constructor error, not a harness failure
+        Err(e) => {
+            let kind = match e {
+                bacon_sci::DimensionError::DynamicOnStatic => ErrKind::DynOnStatic,
+                _ => ErrKind::StaticOnDyn,
+            };
+            return RunOut { build: vec![], ctor: Err(kind), solve: None, items: vec![], end: End::NotBuilt, after: vec![], calls: 0, panic: None };
+        }
+    };
     let calls = Rc::new(Cell::new(0u64));
     let c2 = calls.clone();
     let max_calls = lim.max_calls;
